@@ -267,6 +267,38 @@ CLAIMED = {
         technique="TLA+ specs Bytes + Packet over the eBPF machine; TLC executes the real emitted bytecode; kernel "
                   "cross-check of programs and runs",
         design_ref="5/C07"),
+
+    "C24": dict(
+        category="model_checking",
+        text="Lifecycle.tla keeps a ledger of what a sync group holds (terminals asked OPERATIONAL, FMMU table "
+             "entries, the program-table entry or the child process) and judges it when the task ends: ended "
+             "cancelled, every terminal asked OPERATIONAL later asked SAFE-OPERATIONAL, no FMMU entry held, "
+             "program unregistered / child stopped. A design of run() for the three kinds with Cancel enabled at "
+             "every await is model-checked exhaustively. The real SyncGroup and FastSyncGroup run on a "
+             "virtual-time loop and simulated bus and are cancelled after every event-loop iteration up to the "
+             "end of the second cycle (thorough: and a second cancel at every later iteration); the fast kind "
+             "uses a real kernel program table with the group program really loaded; the real "
+             "ProcessSyncGroup.start() spawns its child and is cancelled before its first step, while booting, "
+             "while cycling and at an exit race. TLC validates every recorded run.",
+        note="Exhaustive over cancellation iterations for the listed configurations, not over configurations. The "
+             "child runs a stand-in ParallelEtherCat.run (no NIC). The harness translates lookup_elem's KeyError "
+             "into the OSError register_sync_group waits for (see DESIGN.md 10, observation). The FMMU "
+             "deactivation register write on the exception path is not demanded. Losses / timeouts on the bus "
+             "are not injected.",
+        technique="TLA+ spec Lifecycle + TLC exhaustive model check; cancellation injected at every await of the real "
+                  "code; TLC batched trace validation",
+        design_ref="5/C24"),
+    "C29": dict(
+        category="model_checking",
+        text="SharedVars.tla: cells with two clients (parent, child), pairwise-disjoint storage across device "
+             "instances, and bytes refining cells, model-checked. Fixed-seed random DeviceVar class sets (23 "
+             "formats incl. x and multi-element, subclasses, redeclarations) on a real ProcessSyncGroup whose "
+             "child is really spawned through the library's own start() path; parent and child alternate "
+             "scripted reads and writes; TLC validates the merged history and the layout seen by each side.",
+        note="Turn-taking only (no concurrent access to one variable); in-range values; class sets are sampled.",
+        technique="TLA+ spec SharedVars + TLC model check; real parent and spawned child processes; TLC batched trace "
+                  "validation",
+        design_ref="5/C29"),
 }
 NOT_YET = "not yet built in this round (planned in DESIGN.md section 5)"
 NOT_APPLICABLE = {}
